@@ -57,8 +57,9 @@ func (s *scenario) renderCore(bp *builtPool, tmpl *mining.BlockTemplate) string 
 		cbv += o.Value
 	}
 	ub := btcutil.NewBlock(tmpl.Block)
-	return fmt.Sprintf("sel=%s fees=%s sig=%s cbv=%d wc=%s w=%d", joinInts(sel), joinInts(tmpl.Fees),
-		joinInts(tmpl.SigOpCosts), cbv, b2s(tmpl.WitnessCommitment != nil), blockchain.GetBlockWeight(ub))
+	sel, fees, sigs := s.canonRuns(sel, tmpl.Fees, tmpl.SigOpCosts)
+	return fmt.Sprintf("sel=%s fees=%s sig=%s cbv=%d wc=%s w=%d", joinInts(sel), joinInts(fees),
+		joinInts(sigs), cbv, b2s(tmpl.WitnessCommitment != nil), blockchain.GetBlockWeight(ub))
 }
 
 // selfConsistent: header merkle root, reported commitment and coinbase
